@@ -65,11 +65,23 @@ def run(tier, res, is_known):
             bfs(spec, dep, res, is_known, label='fee=%s init=%d base=%s' % ('/'.join(fee), i, base))
             if any(not is_known(v) for v in res.violations):
                 return
+    from ..core import product
+    pits = bm.periodic_items([FEES_QUICK[1]] if tier == 'quick' else FEES_QUICK, repeats=(40, 150) if tier == 'quick' else (40, 150, 400))
+    product(periodic, pits, res, is_known, label='long periodic histories', chunk=4)
+    res.rule += '; plus every cycle of <= 2 events over a 10-event alphabet repeated 40 / 150 (/ 400) times at one open instant'
 
 
 def replay(case):
+    if case.get('harness') == 'periodic':
+        return bm.replay_periodic(case, 'C01.', df_check=True)
     return bm.replay_broker(dict(case, df_check=True), 'C01.')
 
 
 def minimise(case, clause):
+    if case.get('harness') == 'periodic':
+        return case
     return bm.minimise_broker(dict(case, df_check=True), clause, 'C01.')
+
+
+def periodic(item):
+    return bm.periodic_point(item, 'C01.', df_check=True)
